@@ -36,7 +36,7 @@ impl Default for GenCfg {
 pub const NAMES: [&str; 8] = ["q0", "q1", "q2", "q3", "été-ü", "a", "queue/with/slash", "q4"];
 
 pub fn long_name(rng: &mut Rng) -> String {
-    let len = *rng.pick(&[255usize, 1000, 30000, 30000, 60000]);
+    let len = *rng.pick(&[255usize, 1000, 30000, 30000, 60000, 65535]);
     let mut s = String::with_capacity(len);
     while s.len() < len {
         s.push((b'a' + (rng.below(26) as u8)) as char);
@@ -141,7 +141,12 @@ pub fn gen_append(r: &Runner, rng: &mut Rng, cfg: &GenCfg, q: String) -> Op {
         0..=11 => None,
         12..=13 => Some(next),
         14 => Some(next + 1 + rng.below(5)),
-        15 => Some(next + 1000 + rng.below(1_000_000)),
+        15 => Some(match rng.below(8) {
+            // far into the future: beyond 32 bits, near 2^61 (the properties quantify up to 2^62)
+            0 if next < (1 << 60) => next + (1u64 << 32) + rng.below(1000),
+            1 if next < (1 << 60) => (1u64 << 61) + rng.below(1000),
+            _ => next + 1000 + rng.below(1_000_000),
+        }),
         16 if cfg.allow_rejected && next > 0 => Some(next - 1),
         17 if cfg.allow_rejected && next > 1 => Some(rng.below(next - 1)),
         _ => None,
@@ -163,7 +168,7 @@ pub fn gen_truncate(r: &Runner, rng: &mut Rng, q: String) -> Op {
             }
         }
         5..=7 => next.saturating_sub(1),
-        8 => next + rng.below(10),
+        8 => if rng.chance(1, 6) && next < (1 << 60) { next + (1u64 << 33) + rng.below(10) } else { next + rng.below(10) },
         _ => next.saturating_sub(2),
     };
     Op::Truncate { q, pos }
